@@ -952,4 +952,156 @@ theorem import_store_inv {file0 text : Str} {im : Imported} (h : importDump file
   exact (AstStore.run_all AstStore.Inv AstStore.Op.viaOperands (fun s o hs ho => AstStore.step_inv s o hs ho) (ops.map SetOp.toOp)
     (AstStore.init im.toks.size) (AstStore.init_inv _) (by simp [List.all_map, toOp_viaOperands])).1
 
+/-! ### the map of the import (`initData`: odd tokens are not spelt like identifiers) against the map the theorems speak about (`{}`) -/
+
+/-- the two attribute records of one token: same varId always, identical when the token is spelt like an identifier -/
+structure AttrSim (t : Nat) (a a0 : Attr) : Prop where
+  varId : a.varId = a0.varId
+  name0 : a0.isName = true
+  name : a.isName = (t % 2 == 0)
+  same : a.isName = true → a = a0
+
+structure Sim (D D0 : Data) : Prop where
+  declMap : D.declMap = D0.declMap
+  notFound : D.notFound = D0.notFound
+  varId : D.varId = D0.varId
+  varDef : D.varDef = D0.varDef
+  attrs : ∀ t, AttrSim t (D.attrs t) (D0.attrs t)
+
+theorem Sim.init : Sim initData {} := by
+  refine ⟨rfl, rfl, rfl, rfl, fun t => ⟨rfl, rfl, rfl, ?_⟩⟩
+  intro h
+  simp only [initData] at h ⊢
+  rw [h]
+
+theorem AttrSim.setVarId {t : Nat} {a a0 : Attr} (h : AttrSim t a a0) (id : Nat) : AttrSim t (a.setVarId id) (a0.setVarId id) := by
+  obtain ⟨h1, h2, h3, h4⟩ := h
+  unfold Attr.setVarId
+  rw [h1]
+  by_cases hv : a0.varId = id
+  · simp only [hv, if_true]; exact ⟨h1, h2, h3, h4⟩
+  · simp only [hv, if_false]
+    refine ⟨rfl, h2, h3, ?_⟩
+    intro hn
+    have := h4 hn
+    subst this
+    rfl
+
+theorem AttrSim.setPtr {t : Nat} {a a0 : Attr} (h : AttrSim t a a0) (ty : TT) (p : Option Nat) :
+    AttrSim t { a with ptr := p, ty := ty } { a0 with ptr := p, ty := ty } := by
+  obtain ⟨h1, h2, h3, h4⟩ := h
+  refine ⟨h1, h2, h3, ?_⟩
+  intro hn
+  have := h4 hn
+  subst this
+  rfl
+
+theorem Sim.rid {D D0 : Data} (h : Sim D D0) (d : Decl) : d.rid D = d.rid D0 := by
+  simp only [Decl.rid, h.varDef, (h.attrs _).varId]
+
+theorem Sim.mark {D D0 : Data} (h : Sim D D0) (d : Decl) {t : Nat} {a a0 : Attr} (ha : AttrSim t a a0) :
+    AttrSim t (d.mark D a) (d.mark D0 a0) := by
+  have hr := h.rid d
+  unfold Decl.mark
+  unfold Decl.rid at hr
+  cases d.kind <;> simp only
+  · rw [hr]; exact (ha.setPtr .variable (some d.obj)).setVarId _
+  · exact ha.setPtr .function (some d.obj)
+  · exact ha.setPtr .enumerator (some d.obj)
+  · exact ha
+
+theorem Sim.updMark {D D0 : Data} (h : Sim D D0) (d : Decl) (t : Nat) :
+    Sim { D with attrs := updAttr D.attrs t (d.mark D) } { D0 with attrs := updAttr D0.attrs t (d.mark D0) } := by
+  refine ⟨h.declMap, h.notFound, h.varId, h.varDef, ?_⟩
+  intro u
+  simp only [updAttr]
+  by_cases hu : u = t
+  · simp only [hu, if_true]; exact h.mark d (h.attrs t)
+  · simp only [hu, if_false]; exact h.attrs u
+
+theorem Sim.ref {D D0 : Data} (h : Sim D D0) (a : Addr) (t : Nat) : Sim (D.ref a t) (D0.ref a t) := by
+  unfold Data.ref
+  rw [h.declMap]
+  cases hl : lookup D0.declMap a with
+  | some d => simp only [Decl.ref_eq]; exact h.updMark d t
+  | none =>
+    simp only
+    rw [h.notFound]
+    cases lookup D0.notFound a with
+    | some l => simp only; exact ⟨rfl, rfl, h.varId, h.varDef, h.attrs⟩
+    | none => simp only; exact ⟨rfl, rfl, h.varId, h.varDef, h.attrs⟩
+
+theorem Sim.foldRef (a : Addr) : ∀ (l : List Nat) {D D0 : Data}, Sim D D0 → Sim (l.foldl (fun x t => x.ref a t) D) (l.foldl (fun x t => x.ref a t) D0)
+  | [], _, _, h => h
+  | t :: l, _, _, h => Sim.foldRef a l (h.ref a t)
+
+theorem Sim.resolve {D D0 : Data} (h : Sim D D0) (a : Addr) : Sim (D.resolve a) (D0.resolve a) := by
+  unfold Data.resolve
+  rw [h.notFound]
+  cases lookup D0.notFound a with
+  | none => exact h
+  | some l =>
+    have hf := Sim.foldRef a l h
+    exact ⟨hf.declMap, by simp only [hf.notFound], hf.varId, hf.varDef, hf.attrs⟩
+
+theorem Sim.step {D D0 : Data} (h : Sim D D0) (e : Ev) : Sim (D.step e) (D0.step e) := by
+  cases e with
+  | varDecl a t o =>
+    simp only [Data.step, Data.varDecl]
+    apply Sim.resolve
+    refine ⟨by simp only [h.declMap], h.notFound, by simp only [h.varId], by simp only [h.varDef], ?_⟩
+    intro u
+    simp only [updAttr, h.varId]
+    by_cases hu : u = t
+    · simp only [hu, if_true]
+      exact ((h.attrs t).setVarId _).setPtr .variable (some o)
+    · simp only [hu, if_false]; exact h.attrs u
+  | funcDecl a t o =>
+    simp only [Data.step, Data.funcDecl]
+    apply Sim.resolve
+    refine ⟨by simp only [h.declMap], h.notFound, h.varId, h.varDef, ?_⟩
+    intro u
+    simp only [updAttr]
+    by_cases hu : u = t
+    · simp only [hu, if_true]; exact (h.attrs t).setPtr .function (some o)
+    · simp only [hu, if_false]; exact h.attrs u
+  | enumDecl a t o =>
+    simp only [Data.step, Data.enumDecl]
+    apply Sim.resolve
+    refine ⟨by simp only [h.declMap], h.notFound, h.varId, h.varDef, ?_⟩
+    intro u
+    simp only [updAttr]
+    by_cases hu : u = t
+    · simp only [hu, if_true]; exact (h.attrs t).setPtr .enumerator (some o)
+    · simp only [hu, if_false]; exact h.attrs u
+  | scopeDecl a o =>
+    simp only [Data.step, Data.scopeDecl]
+    exact ⟨by simp only [h.declMap], h.notFound, h.varId, h.varDef, h.attrs⟩
+  | ref a t => exact h.ref a t
+  | replace f t =>
+    simp only [Data.step, Data.replaceVarDecl]
+    exact ⟨by simp only [h.declMap], h.notFound, h.varId, by simp only [h.varDef], h.attrs⟩
+
+theorem Sim.run : ∀ (evs : List Ev) {D D0 : Data}, Sim D D0 → Sim (runEvents D evs) (runEvents D0 evs)
+  | [], _, _, h => h
+  | e :: r, _, _, h => by
+    simp only [runEvents, List.foldl_cons]
+    exact Sim.run r (h.step e)
+
+/-- the declaration map of a successful import is the result of running its logged events from `initData` -/
+theorem importDump_data {file0 text : Str} {im : Imported} (h : importDump file0 text = .ok im) :
+    im.rawAttrs = (runEvents initData im.events).attrs ∧ im.rawVarDef = (runEvents initData im.events).varDef := by
+  unfold importDump at h
+  split at h
+  · cases h
+  · rename_i st _
+    split at h
+    · cases h
+    · split at h
+      · cases h
+      · cases h
+        simp only
+        rw [← st.log.ok]
+        exact ⟨rfl, rfl⟩
+
 end Cppcheck.ClangDeclMap
